@@ -207,7 +207,7 @@ pub fn run(rep: &Report) {
         l.sample(6, || json!(p.src.clone()));
         check_program(&p, l)
     });
-    let n = rep.tier.pick(30_000u64, 1_000_000);
+    let n = rep.tier.pick(150_000u64, 2_000_000);
     let depth = rep.tier.pick(4u32, 7);
     common::random_search(rep, "programs", 120, n, &move || programs::arb_program(depth), &|p: &Program, l| {
         l.sample(3, || json!({"src": vcore::clip(&p.src, 120), "ctx": p.ctx.describe()}));
